@@ -181,8 +181,9 @@ def _cancel(n, d):
         best = None
         # common factors may only be visible under another orientation of a sphere/circle rule
         # (1 - x^2 - y^2 = z^2 on the unit sphere): try each representative, keep the simplest result
-        nforms = _alt_forms(n) if len(n.t) <= 60 else [n]
-        dforms = _alt_forms(d) if len(d.t) <= 60 else [d]
+        small = len(n.t) <= 40 and len(d.t) <= 20
+        nforms = _alt_forms(n) if small else [n]
+        dforms = _alt_forms(d) if small else [d]
         for nf in nforms:
             for df in dforms:
                 if df.is_zero():
@@ -1073,6 +1074,15 @@ def sabs(a):
         return a
     if sg in ('neg', 'nonpos'):
         return -a
+    if a.d.is_const() and a.n.is_monomial():
+        # |c * x^e * y^f ...| = |c| * |x|^e * |y|^f : one abs atom per atom of unknown sign
+        (mm, cc), = a.n.t.items()
+        if len(mm) > 1 or (len(mm) == 1 and (mm[0][1] > 1 or abs(cc / a.d.const_val()) != 1)):
+            res = SReal.lift(abs(cc / a.d.const_val()))
+            for v, e in mm:
+                av = sabs(SReal.var(v))
+                res = res * (av ** e)
+            return res
     # |monomial * rest| = |monomial| * |rest| : pull atoms of known sign out of the absolute value
     if a.d.is_const() and not a.n.is_monomial():
         g = a.n.content_monomial()
@@ -1366,6 +1376,18 @@ def _angle_atoms(m, b):
 MAX_MULT = 12
 
 
+def _abs_in_monomial(m):
+    """name of the single abs atom occurring (to the first power) in monomial m, if its argument is a polynomial"""
+    found = None
+    for v, e in m:
+        d = CTX.defs.get(v)
+        if d is not None and d[0] == 'abs':
+            if e != 1 or found is not None or not d[1].d.is_const():
+                return None
+            found = v
+    return found
+
+
 def sincos(x):
     p = _angle_poly(x)
     if p.is_zero():
@@ -1387,6 +1409,14 @@ def sincos(x):
             for vv, e in m:
                 v *= CTX.const_atoms[vv] ** e
             sb, cb = SReal.lift(_math.sin(v)), SReal.lift(_math.cos(v))
+        elif _abs_in_monomial(m) is not None:
+            # angle k*r*|x|: cos is even, sin(k r |x|) = sin(k r x) * x/|x|   (|x| != 0 becomes a domain obligation of the division)
+            av = _abs_in_monomial(m)
+            xx = CTX.defs[av][1]
+            rest = tuple((v, e) for v, e in m if v != av)
+            sx, cx = sincos(xx * SReal(Poly({rest: k})))
+            cb = cx
+            sb = sx * xx / SReal.var(av)
         elif len(m) == 1 and m[0][1] == 1 and m[0][0] in CTX.angvals and b == 1:
             s1, c1 = CTX.angvals[m[0][0]]
             if abs(a) > MAX_MULT:
